@@ -19,6 +19,10 @@ CLAIMED = {
          "Trusted: pyvc, z3 (E-matching, MBQI only for counter-models), the plugin contract of Command.execute for third-party plugins, class invariants of Command/Argument objects, A-LOCALS, A-REC, C20's behavioural contract of Parameter.clean. Obligations over the quantified heap have no concretiser: a regression against the committed ledger is reported with the solver's reason (no-failing-input-found); the bounded graph battery on the real code supplies failing inputs where it can."),
  "C14": ("proof", "Command.run: re-entering a running, unfinished command raises RecursiveModelStructure with no effect and never returns; Program.run: returns => every command finished; lemmas RANK / NO-CYCLE-1..5: a heap where every command is finished has no reference cycle, so a cyclic model can never end in a normal return; recursion is cut at the first re-entry",
          "Trusted: as C01. That the error raised for a cyclic model is RecursiveModelStructure (and not an earlier, unrelated error of the same model) is shown for the re-entry point itself; the bounded battery runs every cyclic digraph on <=3 (thorough: 4) commands on the real code."),
+ "C10": ("other", "proved obligations on mpilot's own parser code: 138 regular-language lemmas over the token regexes extracted from the source in PLY's order (documented lexemes accepted exactly, no pre-emption, maximal munch, layout ignored), token-function contracts (number written / unescaped text between the delimiting quotes / SyntaxError only), one contract per grammar action and production (p[0] = the abstract-syntax value: order and slots), Parser.parse per-call state; the PLY lex/yacc engines are an assumed contract; B-PARSE: parse(render(ast)) = ast and rejection of corrupted texts on the real parser (bounded)",
+         "Level `other`: the engines (table-driven PLY code) are not under contract, so 'parsing returns exactly ...' end to end rests on the assumed LEX/YACC contracts plus the bounded stand-in. One known finding (unquoted text ending in a number token is rejected) is listed in known_findings.json."),
+ "C11": ("other", "proved: t_newline/t_STRING advance lineno by exactly the line breaks consumed, no other rule consumes a line break (L-NL lemmas), count_line_breaks, Parser.parse resets lineno before every parse, every node-building action stores p.lineno(1), exception classes and the parameter cleaners report the line they were given; B-LINES: real parses with CRLF, comments, multi-line arguments and repeated parses on one Parser (bounded)",
+         "Level `other`: the step from token lines to p.lineno(k) is the assumed YACC contract. Line threading through from_source/add_command and the CLI window are added under C12/C13 when those are registered."),
  "C19": ("other", "expression-level contracts proved by SMT (strings): the registry-selection predicate of Program.__init__ equals the statement's `requested library or its sub-module`; duplicate detection per command name among the selected entries; command_library = name -> class over exactly the selected entries; CommandMeta.__new__ registers iff no entry with the same (module, command name) exists and the registry is monotone. load_commands / the import system / Counter are assumed; a bounded history battery (generated packages with prefix-related names, earlier Program constructions and run-time class definitions, compared with a fresh interpreter) runs on the real code",
          "Level `other`: the deciding expressions are under contract and proved for all strings, but Program.__init__ as a whole (set iteration, Counter, import side effects) is not symbolically executed; history independence is a lemma over those expression contracts plus the bounded battery."),
  "C20": ("proof", "TYPED / RAISES_ONLY / PURE / DETERMINISTIC / IDEMPOTENT obligations of the ten Parameter.clean bodies over an arbitrary dynamic value (recursive Val datatype), symbolic parameter configuration and program",
